@@ -1,4 +1,7 @@
-// Package vatomic replaces "sync/atomic" inside the library under test.
+// Package vatomic replaces "sync/atomic" inside the library under test. Every
+// operation is one scheduling point and a happens-before edge on its address
+// (loads acquire, stores release, read-modify-write operations do both); the
+// memory operation itself is the real atomic one.
 package vatomic
 
 import (
@@ -8,20 +11,357 @@ import (
 	"github.com/goccy/go-json/internal/vsync"
 )
 
-func LoadPointer(addr *unsafe.Pointer) unsafe.Pointer {
+func pre(op string, addr unsafe.Pointer, acq, rel bool) {
 	if vsync.Hooks.Active {
-		vsync.Hooks.Point("LoadPointer", unsafe.Pointer(addr))
-		p := atomic.LoadPointer(addr)
-		vsync.Hooks.Acquire(unsafe.Pointer(addr))
-		return p
+		vsync.Hooks.Point(op, addr)
+		if acq {
+			vsync.Hooks.Acquire(addr)
+		}
+		if rel {
+			vsync.Hooks.Release(addr)
+		}
 	}
+}
+
+func LoadPointer(addr *unsafe.Pointer) unsafe.Pointer {
+	pre("LoadPointer", unsafe.Pointer(addr), true, false)
 	return atomic.LoadPointer(addr)
 }
 
 func StorePointer(addr *unsafe.Pointer, val unsafe.Pointer) {
-	if vsync.Hooks.Active {
-		vsync.Hooks.Point("StorePointer", unsafe.Pointer(addr))
-		vsync.Hooks.Release(unsafe.Pointer(addr))
-	}
+	pre("StorePointer", unsafe.Pointer(addr), false, true)
 	atomic.StorePointer(addr, val)
+}
+
+func SwapPointer(addr *unsafe.Pointer, new unsafe.Pointer) unsafe.Pointer {
+	pre("SwapPointer", unsafe.Pointer(addr), true, true)
+	return atomic.SwapPointer(addr, new)
+}
+
+func CompareAndSwapPointer(addr *unsafe.Pointer, old, new unsafe.Pointer) bool {
+	pre("CompareAndSwapPointer", unsafe.Pointer(addr), true, true)
+	return atomic.CompareAndSwapPointer(addr, old, new)
+}
+
+func LoadInt32(addr *int32) int32 {
+	pre("LoadInt32", unsafe.Pointer(addr), true, false)
+	return atomic.LoadInt32(addr)
+}
+func LoadInt64(addr *int64) int64 {
+	pre("LoadInt64", unsafe.Pointer(addr), true, false)
+	return atomic.LoadInt64(addr)
+}
+func LoadUint32(addr *uint32) uint32 {
+	pre("LoadUint32", unsafe.Pointer(addr), true, false)
+	return atomic.LoadUint32(addr)
+}
+func LoadUint64(addr *uint64) uint64 {
+	pre("LoadUint64", unsafe.Pointer(addr), true, false)
+	return atomic.LoadUint64(addr)
+}
+func LoadUintptr(addr *uintptr) uintptr {
+	pre("LoadUintptr", unsafe.Pointer(addr), true, false)
+	return atomic.LoadUintptr(addr)
+}
+func StoreInt32(addr *int32, v int32) {
+	pre("StoreInt32", unsafe.Pointer(addr), false, true)
+	atomic.StoreInt32(addr, v)
+}
+func StoreInt64(addr *int64, v int64) {
+	pre("StoreInt64", unsafe.Pointer(addr), false, true)
+	atomic.StoreInt64(addr, v)
+}
+func StoreUint32(addr *uint32, v uint32) {
+	pre("StoreUint32", unsafe.Pointer(addr), false, true)
+	atomic.StoreUint32(addr, v)
+}
+func StoreUint64(addr *uint64, v uint64) {
+	pre("StoreUint64", unsafe.Pointer(addr), false, true)
+	atomic.StoreUint64(addr, v)
+}
+func StoreUintptr(addr *uintptr, v uintptr) {
+	pre("StoreUintptr", unsafe.Pointer(addr), false, true)
+	atomic.StoreUintptr(addr, v)
+}
+func AddInt32(addr *int32, d int32) int32 {
+	pre("AddInt32", unsafe.Pointer(addr), true, true)
+	return atomic.AddInt32(addr, d)
+}
+func AddInt64(addr *int64, d int64) int64 {
+	pre("AddInt64", unsafe.Pointer(addr), true, true)
+	return atomic.AddInt64(addr, d)
+}
+func AddUint32(addr *uint32, d uint32) uint32 {
+	pre("AddUint32", unsafe.Pointer(addr), true, true)
+	return atomic.AddUint32(addr, d)
+}
+func AddUint64(addr *uint64, d uint64) uint64 {
+	pre("AddUint64", unsafe.Pointer(addr), true, true)
+	return atomic.AddUint64(addr, d)
+}
+func AddUintptr(addr *uintptr, d uintptr) uintptr {
+	pre("AddUintptr", unsafe.Pointer(addr), true, true)
+	return atomic.AddUintptr(addr, d)
+}
+func SwapInt32(addr *int32, v int32) int32 {
+	pre("SwapInt32", unsafe.Pointer(addr), true, true)
+	return atomic.SwapInt32(addr, v)
+}
+func SwapInt64(addr *int64, v int64) int64 {
+	pre("SwapInt64", unsafe.Pointer(addr), true, true)
+	return atomic.SwapInt64(addr, v)
+}
+func SwapUint32(addr *uint32, v uint32) uint32 {
+	pre("SwapUint32", unsafe.Pointer(addr), true, true)
+	return atomic.SwapUint32(addr, v)
+}
+func SwapUint64(addr *uint64, v uint64) uint64 {
+	pre("SwapUint64", unsafe.Pointer(addr), true, true)
+	return atomic.SwapUint64(addr, v)
+}
+func SwapUintptr(addr *uintptr, v uintptr) uintptr {
+	pre("SwapUintptr", unsafe.Pointer(addr), true, true)
+	return atomic.SwapUintptr(addr, v)
+}
+func CompareAndSwapInt32(addr *int32, old, new int32) bool {
+	pre("CompareAndSwapInt32", unsafe.Pointer(addr), true, true)
+	return atomic.CompareAndSwapInt32(addr, old, new)
+}
+func CompareAndSwapInt64(addr *int64, old, new int64) bool {
+	pre("CompareAndSwapInt64", unsafe.Pointer(addr), true, true)
+	return atomic.CompareAndSwapInt64(addr, old, new)
+}
+func CompareAndSwapUint32(addr *uint32, old, new uint32) bool {
+	pre("CompareAndSwapUint32", unsafe.Pointer(addr), true, true)
+	return atomic.CompareAndSwapUint32(addr, old, new)
+}
+func CompareAndSwapUint64(addr *uint64, old, new uint64) bool {
+	pre("CompareAndSwapUint64", unsafe.Pointer(addr), true, true)
+	return atomic.CompareAndSwapUint64(addr, old, new)
+}
+func CompareAndSwapUintptr(addr *uintptr, old, new uintptr) bool {
+	pre("CompareAndSwapUintptr", unsafe.Pointer(addr), true, true)
+	return atomic.CompareAndSwapUintptr(addr, old, new)
+}
+func AndInt32(addr *int32, mask int32) int32 {
+	pre("AndInt32", unsafe.Pointer(addr), true, true)
+	return atomic.AndInt32(addr, mask)
+}
+func AndUint32(addr *uint32, mask uint32) uint32 {
+	pre("AndUint32", unsafe.Pointer(addr), true, true)
+	return atomic.AndUint32(addr, mask)
+}
+func AndInt64(addr *int64, mask int64) int64 {
+	pre("AndInt64", unsafe.Pointer(addr), true, true)
+	return atomic.AndInt64(addr, mask)
+}
+func AndUint64(addr *uint64, mask uint64) uint64 {
+	pre("AndUint64", unsafe.Pointer(addr), true, true)
+	return atomic.AndUint64(addr, mask)
+}
+func AndUintptr(addr *uintptr, mask uintptr) uintptr {
+	pre("AndUintptr", unsafe.Pointer(addr), true, true)
+	return atomic.AndUintptr(addr, mask)
+}
+func OrInt32(addr *int32, mask int32) int32 {
+	pre("OrInt32", unsafe.Pointer(addr), true, true)
+	return atomic.OrInt32(addr, mask)
+}
+func OrUint32(addr *uint32, mask uint32) uint32 {
+	pre("OrUint32", unsafe.Pointer(addr), true, true)
+	return atomic.OrUint32(addr, mask)
+}
+func OrInt64(addr *int64, mask int64) int64 {
+	pre("OrInt64", unsafe.Pointer(addr), true, true)
+	return atomic.OrInt64(addr, mask)
+}
+func OrUint64(addr *uint64, mask uint64) uint64 {
+	pre("OrUint64", unsafe.Pointer(addr), true, true)
+	return atomic.OrUint64(addr, mask)
+}
+func OrUintptr(addr *uintptr, mask uintptr) uintptr {
+	pre("OrUintptr", unsafe.Pointer(addr), true, true)
+	return atomic.OrUintptr(addr, mask)
+}
+
+// Typed atomics.
+
+type Bool struct{ v atomic.Bool }
+
+func (x *Bool) Load() bool { pre("Bool.Load", unsafe.Pointer(x), true, false); return x.v.Load() }
+func (x *Bool) Store(v bool) {
+	pre("Bool.Store", unsafe.Pointer(x), false, true)
+	x.v.Store(v)
+}
+func (x *Bool) Swap(v bool) bool { pre("Bool.Swap", unsafe.Pointer(x), true, true); return x.v.Swap(v) }
+func (x *Bool) CompareAndSwap(old, new bool) bool {
+	pre("Bool.CompareAndSwap", unsafe.Pointer(x), true, true)
+	return x.v.CompareAndSwap(old, new)
+}
+
+type Int32 struct{ v atomic.Int32 }
+
+func (x *Int32) Load() int32 { pre("Int32.Load", unsafe.Pointer(x), true, false); return x.v.Load() }
+func (x *Int32) Store(v int32) {
+	pre("Int32.Store", unsafe.Pointer(x), false, true)
+	x.v.Store(v)
+}
+func (x *Int32) Swap(v int32) int32 {
+	pre("Int32.Swap", unsafe.Pointer(x), true, true)
+	return x.v.Swap(v)
+}
+func (x *Int32) CompareAndSwap(old, new int32) bool {
+	pre("Int32.CompareAndSwap", unsafe.Pointer(x), true, true)
+	return x.v.CompareAndSwap(old, new)
+}
+func (x *Int32) Add(d int32) int32 {
+	pre("Int32.Add", unsafe.Pointer(x), true, true)
+	return x.v.Add(d)
+}
+func (x *Int32) And(m int32) int32 {
+	pre("Int32.And", unsafe.Pointer(x), true, true)
+	return x.v.And(m)
+}
+func (x *Int32) Or(m int32) int32 { pre("Int32.Or", unsafe.Pointer(x), true, true); return x.v.Or(m) }
+
+type Int64 struct{ v atomic.Int64 }
+
+func (x *Int64) Load() int64 { pre("Int64.Load", unsafe.Pointer(x), true, false); return x.v.Load() }
+func (x *Int64) Store(v int64) {
+	pre("Int64.Store", unsafe.Pointer(x), false, true)
+	x.v.Store(v)
+}
+func (x *Int64) Swap(v int64) int64 {
+	pre("Int64.Swap", unsafe.Pointer(x), true, true)
+	return x.v.Swap(v)
+}
+func (x *Int64) CompareAndSwap(old, new int64) bool {
+	pre("Int64.CompareAndSwap", unsafe.Pointer(x), true, true)
+	return x.v.CompareAndSwap(old, new)
+}
+func (x *Int64) Add(d int64) int64 {
+	pre("Int64.Add", unsafe.Pointer(x), true, true)
+	return x.v.Add(d)
+}
+func (x *Int64) And(m int64) int64 {
+	pre("Int64.And", unsafe.Pointer(x), true, true)
+	return x.v.And(m)
+}
+func (x *Int64) Or(m int64) int64 { pre("Int64.Or", unsafe.Pointer(x), true, true); return x.v.Or(m) }
+
+type Uint32 struct{ v atomic.Uint32 }
+
+func (x *Uint32) Load() uint32 { pre("Uint32.Load", unsafe.Pointer(x), true, false); return x.v.Load() }
+func (x *Uint32) Store(v uint32) {
+	pre("Uint32.Store", unsafe.Pointer(x), false, true)
+	x.v.Store(v)
+}
+func (x *Uint32) Swap(v uint32) uint32 {
+	pre("Uint32.Swap", unsafe.Pointer(x), true, true)
+	return x.v.Swap(v)
+}
+func (x *Uint32) CompareAndSwap(old, new uint32) bool {
+	pre("Uint32.CompareAndSwap", unsafe.Pointer(x), true, true)
+	return x.v.CompareAndSwap(old, new)
+}
+func (x *Uint32) Add(d uint32) uint32 {
+	pre("Uint32.Add", unsafe.Pointer(x), true, true)
+	return x.v.Add(d)
+}
+func (x *Uint32) And(m uint32) uint32 {
+	pre("Uint32.And", unsafe.Pointer(x), true, true)
+	return x.v.And(m)
+}
+func (x *Uint32) Or(m uint32) uint32 {
+	pre("Uint32.Or", unsafe.Pointer(x), true, true)
+	return x.v.Or(m)
+}
+
+type Uint64 struct{ v atomic.Uint64 }
+
+func (x *Uint64) Load() uint64 { pre("Uint64.Load", unsafe.Pointer(x), true, false); return x.v.Load() }
+func (x *Uint64) Store(v uint64) {
+	pre("Uint64.Store", unsafe.Pointer(x), false, true)
+	x.v.Store(v)
+}
+func (x *Uint64) Swap(v uint64) uint64 {
+	pre("Uint64.Swap", unsafe.Pointer(x), true, true)
+	return x.v.Swap(v)
+}
+func (x *Uint64) CompareAndSwap(old, new uint64) bool {
+	pre("Uint64.CompareAndSwap", unsafe.Pointer(x), true, true)
+	return x.v.CompareAndSwap(old, new)
+}
+func (x *Uint64) Add(d uint64) uint64 {
+	pre("Uint64.Add", unsafe.Pointer(x), true, true)
+	return x.v.Add(d)
+}
+func (x *Uint64) And(m uint64) uint64 {
+	pre("Uint64.And", unsafe.Pointer(x), true, true)
+	return x.v.And(m)
+}
+func (x *Uint64) Or(m uint64) uint64 {
+	pre("Uint64.Or", unsafe.Pointer(x), true, true)
+	return x.v.Or(m)
+}
+
+type Uintptr struct{ v atomic.Uintptr }
+
+func (x *Uintptr) Load() uintptr {
+	pre("Uintptr.Load", unsafe.Pointer(x), true, false)
+	return x.v.Load()
+}
+func (x *Uintptr) Store(v uintptr) {
+	pre("Uintptr.Store", unsafe.Pointer(x), false, true)
+	x.v.Store(v)
+}
+func (x *Uintptr) Swap(v uintptr) uintptr {
+	pre("Uintptr.Swap", unsafe.Pointer(x), true, true)
+	return x.v.Swap(v)
+}
+func (x *Uintptr) CompareAndSwap(old, new uintptr) bool {
+	pre("Uintptr.CompareAndSwap", unsafe.Pointer(x), true, true)
+	return x.v.CompareAndSwap(old, new)
+}
+func (x *Uintptr) Add(d uintptr) uintptr {
+	pre("Uintptr.Add", unsafe.Pointer(x), true, true)
+	return x.v.Add(d)
+}
+
+type Pointer[T any] struct{ v atomic.Pointer[T] }
+
+func (x *Pointer[T]) Load() *T {
+	pre("Pointer.Load", unsafe.Pointer(x), true, false)
+	return x.v.Load()
+}
+func (x *Pointer[T]) Store(v *T) {
+	pre("Pointer.Store", unsafe.Pointer(x), false, true)
+	x.v.Store(v)
+}
+func (x *Pointer[T]) Swap(v *T) *T {
+	pre("Pointer.Swap", unsafe.Pointer(x), true, true)
+	return x.v.Swap(v)
+}
+func (x *Pointer[T]) CompareAndSwap(old, new *T) bool {
+	pre("Pointer.CompareAndSwap", unsafe.Pointer(x), true, true)
+	return x.v.CompareAndSwap(old, new)
+}
+
+type Value struct{ v atomic.Value }
+
+func (x *Value) Load() interface{} {
+	pre("Value.Load", unsafe.Pointer(x), true, false)
+	return x.v.Load()
+}
+func (x *Value) Store(v interface{}) {
+	pre("Value.Store", unsafe.Pointer(x), false, true)
+	x.v.Store(v)
+}
+func (x *Value) Swap(v interface{}) interface{} {
+	pre("Value.Swap", unsafe.Pointer(x), true, true)
+	return x.v.Swap(v)
+}
+func (x *Value) CompareAndSwap(old, new interface{}) bool {
+	pre("Value.CompareAndSwap", unsafe.Pointer(x), true, true)
+	return x.v.CompareAndSwap(old, new)
 }
